@@ -870,16 +870,22 @@ pub fn worker(ctx: &'static Ctx, i: usize, n: usize) {
     let mine: Vec<(usize, Root)> = idx.into_iter().enumerate().filter(|(k, _)| k % n == i).map(|(_, r)| r).collect();
     // pass 1: every log macro live; pass 2 (reported): the library's default, no logging
     let single = std::env::var("VERIF_SINGLE_PASS").is_ok();
-    if !single {
-        set_logging(true);
+    for level in if single { vec![] } else { preliminary_log_levels(ctx.tier) } {
+        set_logging_level(level);
+        if level == log::LevelFilter::Trace {
+            crate::clock::set_global_now_ms(PASS1_CLOCK_MS);
+        } else {
+            crate::clock::set_global_offset_ns(0);
+        }
         let mut scratch = Stats::new();
         // the logging pass explores every root with at most one deviation (the HTTP stack's own
         // trace output makes this pass several times slower per execution)
         let reduced: Vec<(usize, Root)> = mine.iter().map(|(i, r)| (*i, Root { bound: r.bound.min(1), ..r.clone() })).collect();
         let _ = run_roots(ctx, &sim, &reduced, &mut scratch);
-        ctx.mark_pass_boundary("trace");
+        ctx.mark_pass_boundary(&level.to_string().to_lowercase());
     }
     set_logging(false);
+    crate::clock::set_global_offset_ns(0);
     let mut st = Stats::new();
     let (ex, pts, rep) = run_roots(ctx, &sim, &mine, &mut st);
     if crate::s3sim::HANDLER_PANICS.load(std::sync::atomic::Ordering::SeqCst) > 0 {
